@@ -185,7 +185,8 @@ class Enum(BaseType, IntEnum, metaclass=EnumMetaType):
             return f"{base}{value}"
 
     def __eq__(self, other: int | Enum) -> bool:
-        if isinstance(other, Enum) and other.__class__ is not self.__class__:
+        # Members of any other enum or flag class are never equal, whatever their value
+        if isinstance(other, _Enum) and other.__class__ is not self.__class__:
             return False
 
         # Python <= 3.10 compatibility
